@@ -219,16 +219,15 @@ def run_history(cfg, ops, prop="C16", whitebox=True):
             if viols:
                 return
 
-    ntrees_max = 1
-    for i, op in enumerate(ops):
-        if viols:
-            break
+
+    def _do_op(op, tag):
+        nonlocal ntrees_max
         kind = op[0]
-        tag = f"op{i}:{kind}"
+
         if kind == "add":
             _, m, n, start, xyz = op
             if (m, n) in model.pos or (m, n) not in node_type:
-                continue                        # re-adding a positioned residue is outside the contract
+                return ntrees_max                        # re-adding a positioned residue is outside the contract
             xyz = np.array(xyz, dtype=float)
             before = len(getattr(eng, "position_trees", [0]))
             eng.add_positions(xyz.copy(), m, n, start=bool(start))
@@ -277,7 +276,7 @@ def run_history(cfg, ops, prop="C16", whitebox=True):
         elif kind == "force":
             _, p, m, n, excl = op
             if (m, n) not in node_type:
-                continue
+                return ntrees_max
             excl = [e for e in excl if (m, e) in node_type]
             opkinds.add("force")
             check_force(p, m, n, excl, tag)
@@ -303,7 +302,7 @@ def run_history(cfg, ops, prop="C16", whitebox=True):
         elif kind == "mindist_node":
             _, ka, kb = op
             if tuple(ka) not in node_type or tuple(kb) not in node_type:
-                continue
+                return ntrees_max
             pa = eng.get_point(*ka)
             pb = eng.get_point(*kb)
             d = eng.pbc_min_dist(pa, pb)
@@ -330,12 +329,29 @@ def run_history(cfg, ops, prop="C16", whitebox=True):
         elif kind == "inter":
             _, ka, kb = op
             if tuple(ka) not in node_type or tuple(kb) not in node_type:
-                continue
+                return ntrees_max
             got = eng.get_interaction(ka[0], kb[0], ka[1], kb[1])
             sig = model.sigma(node_type[tuple(ka)], node_type[tuple(kb)])
             opkinds.add("inter")
             if abs(got[0] - sig) > 1e-12 or abs(got[1] - 1.0) > 1e-12:
                 fail("force", f"{tag}: pair parameters {got} expected ({sig}, 1.0)")
+        return ntrees_max
+
+    ntrees_max = 1
+    for i, op in enumerate(ops):
+        if viols:
+            break
+        kind = op[0]
+        tag = f"op{i}:{kind}"
+        try:
+            ntrees_max = max(ntrees_max, _do_op(op, tag))
+        except Exception as err:       # every generated operation is valid: the engine must not raise
+            import traceback
+            tb = traceback.extract_tb(err.__traceback__)
+            where = next((f"{fr.filename.split('/')[-1]}:{fr.name}" for fr in reversed(tb) if "/polyply/" in fr.filename), "")
+            if not where:
+                raise
+            fail("crash", f"{tag}: engine raised {type(err).__name__}: {str(err)[:200]} at {where}")
     if ntrees_max > 1:
         probe("multi_tree_state")
     return {
